@@ -170,14 +170,14 @@ type epochNotifier struct {
 	handlers []vmcommon.EpochSubscriberHandler
 }
 
-// RegisterNotifyHandler registers and, like the node's notifier and the repository's own
-// EpochNotifierStub, immediately confirms the current epoch (0 at creation).
+// RegisterNotifyHandler only registers (literal PROTOCOL reading: handlers hear from the notifier
+// through `epoch` ops and not otherwise). Until the first `epoch` op the epoch-gated functions
+// are therefore inactive, whatever the activation epoch.
 func (n *epochNotifier) RegisterNotifyHandler(h vmcommon.EpochSubscriberHandler) {
 	if h == nil || h.IsInterfaceNil() {
 		return
 	}
 	n.handlers = append(n.handlers, h)
-	h.EpochConfirmed(0, 0)
 }
 
 func (n *epochNotifier) confirm(epoch uint32) {
